@@ -56,3 +56,18 @@ CHECKS["C21"] = {"pkg": "codec", "shards": 12, "fuzz": [{"target": "FuzzC21_Deco
     "technique": "three-way differential property-based testing (rapid, reflection-driven value and byte-string generators): generated codec vs reflection encoder vs independent reference encoder; native fuzzing of all decoders in thorough",
     "text": "For each of the 29 generated codecs, generated values must encode to identical bytes and sizes under all three encoders and decode back; mutated and random byte strings must give the same error kind, consumed length and value under the generated and the reflection decoder; exact decoding must re-encode to the input; no decoder may panic.",
     "note": "trusted: harness/internal/ref/enc (written from the encoder documentation); documented asymmetry accepted: the reflection encoder does not enforce maxlen on encode (package doc), the generated one does"}
+
+CHECKS["C22"] = {"pkg": "net", "shards": 12, "fuzz": [{"target": "FuzzC22_Stream", "seconds": 90}],
+    "technique": "property-based testing (rapid): generated message sequences x generated chunkings through the real framing code, round-trip oracle; hostile-frame mutations with an error-class oracle; native fuzzing of the receive path in thorough",
+    "text": "Generated-input search: sequences of all 12 wire message types with generated bodies are framed, concatenated and cut at generated points (inside the length prefix, inside the id, after k complete frames plus a partial one, byte by byte); the receive path must deliver exactly the sent sequence and leave an empty buffer. Hostile frames must end in a documented disconnect error after delivering every earlier message; nothing may panic.",
+    "note": "the receive loop is driven through the verif hooks VerifDecodeData/VerifConvertToMessage chunk by chunk, as readLoop does; the TCP layer and the bounded receive queue are not part of this check"}
+
+CHECKS["C23"] = {"pkg": "net", "shards": 8,
+    "technique": "property-based testing (rapid) with limits aimed at the exact framed size of k items +-9; size oracle from the independent reference encoder",
+    "text": "Generated-input search: for every truncating message constructor, generated item lists and maximum lengths (uniform, header-sized, and exactly around the cumulative framed size of k items) must yield a framed message no longer than the maximum, made of a prefix of the request that cannot be extended by one more requested item without exceeding the maximum or the item cap.",
+    "note": "the bound is the one gnet.sendMessage enforces (length prefix + id + body); item sizes are computed with harness/internal/ref/enc"}
+
+CHECKS["C24"] = {"pkg": "net", "shards": 8,
+    "technique": "model-based stateful property testing (rapid state machine) of daemon.Connections against a set-of-live-connections model",
+    "text": "Generated operation sequences (attempt, connect, introduce, remove with right/wrong ids, remove-all) over 9 addresses on 3 IPs with mirrors {0,1,2} and listen ports {0,6000,6001}; after every step the five bookkeeping maps must equal what the model derives from the live set and each operation must succeed exactly when the model says the transition is legal; removing everything must leave all maps empty.",
+    "note": "maps are observed through the verif hook VerifSnapshot; connection ids passed to connect are fresh (as gnet allocates them)"}
